@@ -336,7 +336,13 @@ func (svr *Server) Close() error {
 		svr.lntls.Close()
 	}
 
-	for _, svc := range svr.svcs {
+	// handleConnection appends to svcs under mu: take a copy under the lock
+	svr.mu.Lock()
+	svcs := make([]*service, len(svr.svcs))
+	copy(svcs, svr.svcs)
+	svr.mu.Unlock()
+
+	for _, svc := range svcs {
 		log.Tracef("Stopping service: %d", svc.id)
 		svc.stop()
 	}
